@@ -524,8 +524,10 @@ class Check:
     def finish(self):
         self.ev["wall_s"] = round(time.time() - self.t0, 2)
         self.ev["violations"] = len(self.violations)
-        os.makedirs(os.path.join(VERIF, "evidence"), exist_ok=True)
-        p = os.path.join(VERIF, "evidence", f"{self.prop}.json")
+        # seeded-change evaluation (VERIF_EVIDENCE_DIR set by harness/seedeval.py) must not overwrite the evidence of /repo
+        evdir = os.environ.get("VERIF_EVIDENCE_DIR") or os.path.join(VERIF, "evidence")
+        os.makedirs(evdir, exist_ok=True)
+        p = os.path.join(evdir, f"{self.prop}.json")
         with open(p, "w") as f:
             json.dump(self.ev, f, indent=1, ensure_ascii=False, default=str)
         return 1 if self.violations else 0
